@@ -323,7 +323,10 @@ def _compare_obs(out, what, inp, pat, q, model, real):
 def correspondence(ctx):
     out = new_outcome(
         "IndelMap: every gap layout of alignment length<=8 (<=10 thorough) x intervals (None, negatives, out of range; full box "
-        "for n<=6) x every align/seq index; random run-structured layouts <=200; binary ops over all pairs of short layouts; "
+        "for n<=6) x every align/seq index; random run-structured layouts <=200 (terminal gaps forced often) with bounds "
+        "aimed at gap starts/ends +-1; maps reached by reversal / slicing / both, re-observed through the validating "
+        "constructor; binary ops over all pairs of short layouts, + with forced junction classes and chains (a+b)+c; "
+        "FeatureMap index maps with reverse spans in any order poking up to 3 outside (each poking span touches [0,len]); "
         "joined_segments/mul/from_aligned_segments/gap_coords_to_map; malformed constructor stream; coords_* helpers and "
         "span_and_span exhaustive box; FeatureMap algebra on random span lists. non-trivial = distinct (layout, query) whose "
         "result map has at least one gap, or distinct binary/feature-map case with non-empty result"
@@ -980,8 +983,55 @@ def _check_layout(out, s, ivs, deep):
             pass
         if got != want:
             fail("get_align_index(slice_stop=True) is not one past the previous residue's column", "align_index_stop", want, got, index=k)
+        if 0 < k < len(cols):
+            # the same residue addressed from the end
+            got = _try(lambda: m.get_align_index(k - len(cols), slice_stop=True), int)
+            out["evaluations"] += 1
+            if got != want:
+                fail("get_align_index(negative, slice_stop=True) differs", "align_index_stop_neg", want, got, index=k - len(cols))
+    # an index below -len is refused loudly, as s[-len-1] is
+    for st in (False, True):
+        got = _try(lambda: m.get_align_index(-len(cols) - 1, slice_stop=st), int)
+        if got != {"err": "IndexError"}:
+            fail("get_align_index(-parent_length-1) does not raise IndexError", "align_index_neg_oob", "IndexError", got, index=-len(cols) - 1)
+    got = _try(lambda: m.get_seq_index(-n - 1), int)
+    if got != {"err": "IndexError"}:
+        fail("get_seq_index(-len-1) does not raise IndexError", "seq_index_neg_oob", "IndexError", got, index=-n - 1)
+    # construction from the ungapped segments / the gap runs read off the string
+    from cogent3.core.location import IndelMap, gap_coords_to_map
+
+    seg_cls = ("empty-list:" + ("empty-string" if not n else "all-gap")) if not segs else (
+        "single-full-segment" if segs == [[0, n]] else lc)
+    for form in ("tuples", "lists"):
+        locs = [tuple(x) for x in segs] if form == "tuples" else [list(x) for x in segs]
+        out["evaluations"] += 1
+        _result_ok(out, lambda: IndelMap.from_aligned_segments(locs, n), s,
+                   "from_aligned_segments(ungapped segments of the string) is not the map of the string",
+                   "from_aligned_segments:" + seg_cls, dict(inp, segments=[list(x) for x in segs]))
+    gaps = {}
+    for a, b in runs:
+        gaps[len(s[:a].replace("-", ""))] = b - a
+    out["evaluations"] += 1
+    _result_ok(out, lambda: gap_coords_to_map(gaps, len(useq)), s,
+               "gap_coords_to_map(gap runs of the string) is not the map of the string", "gap_coords_to_map:" + lc,
+               dict(inp, gaps=sorted(gaps.items())))
+    bump(out, "spec_from_segments", seg_cls)
     # reversal
-    _result_ok(out, lambda: m.nucleic_reversed(), s[::-1], "nucleic_reversed differs from the map of the reversed string", "reversed", inp)
+    rlc = _layout_class("".join("1" if c == "-" else "0" for c in s[::-1]))
+    _result_ok(out, lambda: m.nucleic_reversed(), s[::-1], "nucleic_reversed differs from the map of the reversed string", "reversed:" + lc, inp)
+    rev = _try(lambda: m.nucleic_reversed())
+    # reversed-then-sliced and sliced-then-reversed
+    for a, b in (ivs if (n <= 4 or not deep) else ivs[:: max(len(ivs) // 14, 1)]):
+        if (a is not None and a < -n) or (b is not None and b < -n):
+            continue
+        out["evaluations"] += 2
+        ic = _interval_class("".join("1" if c == "-" else "0" for c in s), a, b)
+        bump(out, "spec_rev_slice", ic if n > 8 else "short")
+        if not isinstance(rev, dict):
+            _result_ok(out, lambda: rev[a:b], s[::-1][a:b], "nucleic_reversed()[a:b] is not the map of s[::-1][a:b]",
+                       "reversed-then-sliced:" + rlc, dict(inp, a=a, b=b, mode="reversed-then-sliced"))
+        _result_ok(out, lambda: m[a:b].nucleic_reversed(), s[a:b][::-1], "m[a:b].nucleic_reversed() is not the map of s[a:b][::-1]",
+                   "sliced-then-reversed:" + lc, dict(inp, a=a, b=b, mode="sliced-then-reversed"))
     # slicing by every interval
     for a, b in ivs:
         out["evaluations"] += 1
@@ -1006,13 +1056,16 @@ def _check_layout(out, s, ivs, deep):
                 bump(out, "noncanonical_but_equivalent", "getitem")
                 continue
             beyond = (b is not None and b > n) or (a is not None and a > n)
+            ic = _interval_class("".join("1" if c == "-" else "0" for c in s), a, b)
             fail(
                 "m[a:b] is not the map of s[a:b]",
-                f"getitem:{'stop-beyond-len' if beyond else 'in-range:' + lc}",
+                f"getitem:{'stop-beyond-len' if beyond else 'in-range:' + ic + ':' + lc}",
                 want, got, a=a, b=b, why=d,
             )
         else:
             bump(out, "spec_getitem", "ok")
+            if n > 8:
+                bump(out, "spec_interval_class_long", _interval_class("".join("1" if c == "-" else "0" for c in s), a, b))
             if want["gp"]:
                 out["nontrivial"].add(("get", s, a, b))
     bump(out, "spec_layout_class", lc)
@@ -1066,20 +1119,56 @@ def _spec_binary(out, s, t, ma, mb):
                    "merge_maps:" + nog, inp)
 
 
-def _spec_fmap(out, rng, count):
-    """feature-map clauses: set-theoretic meaning on random maps"""
-    from cogent3.core.location import FeatureMap
+def _junction(s, t):
+    if not s or not t:
+        return "empty"
+    return ("gap" if s[-1] == "-" else "res") + "|" + ("gap" if t[0] == "-" else "res")
 
+
+def _spec_add3(out, s, t, u, ma, mb, mc):
+    """chains of +: (a + b) + c and a + (b + c) are both the map of the concatenated string"""
+    inp = dict(s=s, t=t, u=u)
+    out["evaluations"] += 2
+    mid = "mid-all-gap" if t and not t.replace("-", "") else "mid-mixed"
+    sig = f"add3:{_junction(s, t)}:{_junction(t, u)}:{mid}"
+    bump(out, "spec_add3", sig)
+    _result_ok(out, lambda: (ma + mb) + mc, s + t + u, "(a + b) + c is not the map of the concatenated string", sig + ":left", inp)
+    _result_ok(out, lambda: ma + (mb + mc), s + t + u, "a + (b + c) is not the map of the concatenated string", sig + ":right", inp)
+
+
+def _spec_fmap(out, rng, count):
+    """feature-map clauses: set-theoretic meaning on random maps (forward, negative-strand and mixed span lists)"""
     for _ in range(count):
-        spans, pl = _rand_fm(rng, "disjoint" if rng.random() < 0.7 else "any")
+        kind = rng.choice(FM_KINDS)
+        spans, pl = _rand_fm(rng, kind)
         try:
             m = _fm_real(spans, pl)
         except AssertionError:
             continue
+        L = len(m)
+        indexes = []
+        if L and spans:
+            indexes.append(dict(spans=_rand_index(rng, L)))
+            if rng.random() < 0.5:
+                indexes.append(dict(spans=_rand_index(rng, L)))
+            vals = [None, 0, L, L + 1, -1, -L] + [rng.randint(-L - 1, L + 2) for _ in range(3)]
+            indexes.append(dict(slice=[rng.choice(vals), rng.choice(vals)]))
+        bump(out, "fmap_kind", kind)
+        _check_fmap(out, spans, pl, indexes)
+
+
+def _check_fmap(out, spans, pl, indexes):
+    """every feature-map clause about one span list; indexes = index maps / slices to compose with"""
+    from cogent3.core.location import FeatureMap
+
+    if True:
+        m = _fm_real(spans, pl)
         inp = dict(spans=spans, pl=pl)
         out["evaluations"] += 1
         cov = _cover_real(m)
         pos = sorted({p for p in cov if p is not None})
+        has_rev = any(len(s) > 1 and s[2] for s in spans)
+        rv = "rev-spans" if has_rev else "fwd-spans"
 
         def fail(what, sig, expected, got):
             add_failure(out, "spec", what, inp, expected, got, sig=sig)
@@ -1090,75 +1179,101 @@ def _spec_fmap(out, rng, count):
             cc = _cover_real(c)
             cs = [(s.start, s.end) for s in c.spans if not s.lost]
             if sorted(set(cc)) != pos or cc != sorted(cc) or len(set(cc)) != len(cc):
-                fail("covered() is not the sorted union of the spans", "fmap-covered", pos, cc)
+                fail("covered() is not the sorted union of the spans", "fmap-covered:" + rv, pos, cc)
             if any(cs[i][1] >= cs[i + 1][0] for i in range(len(cs) - 1)):
-                fail("covered() spans are not maximal/disjoint", "fmap-covered-maximal", None, cs)
+                fail("covered() spans are not maximal/disjoint", "fmap-covered-maximal:" + rv, None, cs)
         except CATCH as e:
             fail("covered() raised", "fmap-covered-raise", pos, type(e).__name__)
         # shadow = complement (defined when the map is invertible: non-overlapping)
-        overlapping = len([p for p in cov if p is not None]) != len(pos)
+        ivs_ = sorted((s[0], s[1]) for s in spans if len(s) > 1)
+        overlapping = any(ivs_[i + 1][0] < ivs_[i][1] for i in range(len(ivs_) - 1))
         try:
             sh = m.shadow()
             sc = _cover_real(sh)
             want = [p for p in range(pl) if p not in set(pos)]
             if sc != want:
-                fail("shadow() is not the complement of the covered positions", "fmap-shadow", want, sc)
+                fail("shadow() is not the complement of the covered positions", "fmap-shadow:" + rv, want, sc)
         except ValueError:
-            if not overlapping and _sorted_forward(spans):
-                fail("shadow() raised on a non-overlapping ordered map", "fmap-shadow-raise", None, "ValueError")
+            if not overlapping:
+                fail("shadow() raised on a non-overlapping map", "fmap-shadow-raise:" + rv, None, "ValueError")
         # inverse
         try:
             inv = m.inverse()
             ic = _cover_real(inv)
             if len(ic) != max(pl, max(pos) + 1 if pos else 0) or inv.parent_length != len(m):
-                fail("inverse() has wrong length / parent_length", "fmap-inverse-len", [pl, len(m)], [len(ic), inv.parent_length])
+                fail("inverse() has wrong length / parent_length", "fmap-inverse-len:" + rv, [pl, len(m)], [len(ic), inv.parent_length])
             else:
                 for i, p in enumerate(cov):
                     if p is not None and ic[p] != i:
-                        fail("inverse() does not send parent position back to the map position", "fmap-inverse", i, ic[p])
+                        fail("inverse() does not send parent position back to the map position", "fmap-inverse:" + rv, i, ic[p])
                         break
                 if sum(1 for x in ic if x is not None) != len(pos):
-                    fail("inverse() covers positions the map does not", "fmap-inverse-extra", len(pos), ic)
-            if not overlapping and all(len(s) == 1 or not s[2] for s in spans):
+                    fail("inverse() covers positions the map does not", "fmap-inverse-extra:" + rv, len(pos), ic)
+            if not overlapping:
                 back = _cover_real(inv.inverse())
                 # involutive on the residues it keeps: trailing/leading lost spans of m are not recoverable
-                if [x for x in back if x is not None] != [x for x in cov if x is not None] and _sorted_forward(spans):
-                    fail("inverse().inverse() loses residues", "fmap-inverse-involutive", cov, back)
+                if [x for x in back if x is not None] != [x for x in cov if x is not None]:
+                    fail("inverse().inverse() loses residues", "fmap-inverse-involutive:" + rv, cov, back)
         except ValueError:
-            if not overlapping and _sorted_forward(spans):
-                fail("inverse() raised on a non-overlapping ordered map", "fmap-inverse-raise", None, "ValueError")
+            if not overlapping:
+                fail("inverse() raised on a non-overlapping map", "fmap-inverse-raise:" + rv, None, "ValueError")
         # reversal
         try:
             r = m.nucleic_reversed()
             want = [None if p is None else pl - 1 - p for p in cov[::-1]]
-            # reverse flags are discarded by design: compare as sets per span
-            if sorted(x for x in _cover_real(r) if x is not None) != sorted(x for x in want if x is not None) or [
-                x is None for x in _cover_real(r)
-            ] != [x is None for x in want]:
-                fail("nucleic_reversed() is not the mirrored map", "fmap-reversed", want, _cover_real(r))
-            if all(len(s) == 1 or not s[2] for s in spans) and _cover_real(r) != want:
-                fail("nucleic_reversed() is not the mirrored map", "fmap-reversed", want, _cover_real(r))
+            got = _cover_real(r)
+            # the reverse flags are discarded by design: every span of the result is read forward; compare span by span
+            # as position sets, and exactly when the map has no reverse span
+            wspans, i = [], 0
+            for s in list(m.spans)[::-1]:
+                seg = want[i : i + s.length]
+                wspans.append(seg if s.lost else sorted(seg))
+                i += s.length
+            gspans, i = [], 0
+            for s in r.spans:
+                gspans.append(got[i : i + s.length])
+                i += s.length
+            if [x for x in gspans if x] != [x for x in wspans if x]:
+                fail("nucleic_reversed() is not the mirrored map", "fmap-reversed:" + rv, wspans, gspans)
+            if r.parent_length != pl:
+                fail("nucleic_reversed() changes parent_length", "fmap-reversed-pl", pl, r.parent_length)
         except AssertionError:
             if all(len(s) == 1 or s[1] <= pl for s in spans):
                 fail("nucleic_reversed() raised", "fmap-reversed-raise", None, "AssertionError")
         # composition
         L = len(m)
-        if L and spans:
-            k = rng.randint(1, 2)
-            c = sorted(rng.randint(0, L) for _ in range(2 * k))
-            ospans = [[c[2 * j], c[2 * j + 1], False] for j in range(k)]
-            if rng.random() < 0.2:
-                ospans.insert(rng.randint(0, len(ospans)), [rng.randint(1, 2)])
-            o = _fm_real(ospans, L)
-            want = [None if j is None else cov[j] for j in _cover_real(o)]
+        for ix in indexes:
+            out["evaluations"] += 1
+            if "slice" in ix:
+                a, b = ix["slice"]
+                want = cov[a:b]
+                try:
+                    got = _cover_real(m[a:b])
+                    if got != want:
+                        add_failure(out, "spec", "m[a:b] is not the slice of the positions the map covers", dict(inp, index=ix), want, got,
+                                    sig="fmap-getitem-slice:" + rv)
+                    elif want:
+                        out["nontrivial"].add(("fmap-slice", str(spans), a, b))
+                except CATCH as e:
+                    add_failure(out, "spec", "m[a:b] raised", dict(inp, index=ix), want, type(e).__name__, sig="fmap-getitem-slice-raise")
+                continue
+            ospans = ix["spans"]
+            try:
+                o = _fm_real(ospans, L)
+            except AssertionError:
+                continue
+            want = [None if (j is None or j < 0 or j >= L) else cov[j] for j in _cover_real(o)]
+            icl = _index_class(ospans, L)
+            bump(out, "fmap_getitem_class", icl + ":" + rv)
             try:
                 got = _cover_real(m[o])
                 if got != want:
-                    add_failure(out, "spec", "m[n] is not the composition of the two maps", dict(inp, index=ospans), want, got, sig="fmap-getitem")
-                else:
+                    add_failure(out, "spec", "m[n] is not the composition of the two maps", dict(inp, index=ix), want, got,
+                                sig=f"fmap-getitem:{icl}:{rv}")
+                elif any(x is not None for x in want):
                     out["nontrivial"].add(("fmap-getitem", str(spans), str(ospans)))
             except CATCH as e:
-                add_failure(out, "spec", "m[n] raised", dict(inp, index=ospans), want, type(e).__name__, sig="fmap-getitem-raise")
+                add_failure(out, "spec", "m[n] raised", dict(inp, index=ix), want, type(e).__name__, sig=f"fmap-getitem-raise:{icl}:{rv}")
         # no coordinates outside the parent
         for name, f in (("covered", m.covered), ("nucleic_reversed", m.nucleic_reversed), ("gaps", m.gaps)):
             try:
@@ -1168,7 +1283,8 @@ def _spec_fmap(out, rng, count):
             pl2 = r.parent_length
             if any((not s.lost) and not (0 <= s.start <= s.end <= pl2) for s in r.spans):
                 fail(f"{name}() yields coordinates outside the parent", f"fmap-bounds:{name}", pl2, _fmd(r))
-        bump(out, "fmap_kind", "overlapping" if overlapping else "disjoint")
+        bump(out, "fmap_overlap", "overlapping" if overlapping else "disjoint")
+        bump(out, "fmap_strand", rv)
 
 
 def _sorted_forward(spans):
@@ -1200,9 +1316,14 @@ def _regression_corpus(out):
 def spec_check(ctx, budget):
     out = new_outcome(
         "real IndelMap/FeatureMap vs plain gapped strings: every layout of length<=7 (quick; more with budget) x every interval "
-        "(None/negative/out-of-range) x every index, random long layouts, all pairs of short layouts for + / minus_gaps / "
-        "shared_gaps / merge_maps, joined_segments, mul, from_aligned_segments; FeatureMap covered/shadow/inverse/reversal/"
-        "composition on random span lists. non-trivial = distinct (string, interval) whose expected map has a gap"
+        "(None/negative/out-of-range) x every index (incl. negative, slice_stop, below -len), random long layouts (<=300, "
+        "leading/trailing/all-gap forced often) with slice bounds aimed at gap starts/ends +-1 / inside runs / 0 / len, "
+        "reversed-then-sliced and sliced-then-reversed maps, from_aligned_segments and gap_coords_to_map from the segments / "
+        "gap runs read off the string (incl. single full segment and empty list), all pairs of short layouts for + / "
+        "minus_gaps / shared_gaps / merge_maps, + on long layouts with every junction class and chains a+b+c, "
+        "joined_segments, mul; FeatureMap covered/shadow/inverse/reversal/composition (index maps with reverse spans, any "
+        "order, poking outside, lost spans; slices) on random forward / negative-strand / mixed / overlapping span lists. "
+        "non-trivial = distinct (string, interval) whose expected map has a gap, or composition with a non-empty result"
     )
     rng = ctx.subrng(f"spec{budget}")
     import cogent3
@@ -1221,34 +1342,65 @@ def spec_check(ctx, budget):
             m, useq = _check_layout(out, s, ivs, True)
             if n <= 5:
                 keep[s] = m
+    longs = []
     for _ in range(120 * budget):
-        n = rng.randint(nmax + 1, 120)
-        pat = _rand_pattern(rng, n)
+        n = rng.randint(nmax + 1, 120) if rng.random() < 0.85 else rng.randint(121, 300)
+        pat = _rand_layout(rng, n)
         s = "".join("-" if c == "1" else rng.choice(letters) for c in pat)
-        ivs = [(_rand_bound(rng, n), _rand_bound(rng, n)) for _ in range(10)]
+        # bounds aimed at the gap starts / ends +-1, inside runs, 0, len (not only uniform)
+        ivs = _targeted_intervals(rng, pat, 14) + [(_rand_bound(rng, n), _rand_bound(rng, n)) for _ in range(3)]
         m, useq = _check_layout(out, s, ivs, False)
+        longs.append((s, m))
         if len(out["samples"]) < 3 and 0 < pat.count("1") < n:
             a, b = ivs[0]
             out["samples"].append(dict(string=s, interval=[a, b], map_of_slice=_try(lambda: m[a:b], _mapd), expected=_canon(s[a:b])))
-        # joined_segments / mul / from_aligned_segments
+        # joined_segments / mul
         out["evaluations"] += 1
         k = rng.randint(1, 3)
-        c = sorted(rng.sample(range(0, n + 1), 2 * k))
+        pts = [p for p in _targets(pat) if p <= n]
+        if rng.random() < 0.5 and len(pts) >= 2 * k:
+            c = sorted(rng.sample(pts, 2 * k))
+        else:
+            c = sorted(rng.sample(range(0, n + 1), 2 * k))
         cs = [(c[2 * i], c[2 * i + 1]) for i in range(k)]
         _result_ok(out, lambda: m.joined_segments(cs), "".join(s[a:b] for a, b in cs),
                    "joined_segments is not the map of the joined slices", "joined_segments", dict(s=s, coords=cs))
         sc = rng.choice([2, 3])
         _result_ok(out, lambda: m * sc, "".join(ch * sc for ch in s), "m * k is not the map of the k-fold stretched string", "mul", dict(s=s, k=sc))
-        locs = [(sp.start, sp.end) for sp in m.nongap()]
-        if "-" in s:
-            _result_ok(out, lambda: IndelMap.from_aligned_segments(locs, n), s,
-                       "from_aligned_segments(nongap) does not rebuild the map", "from_aligned_segments", dict(s=s))
+    # + on long layouts: every junction class (gap|gap, gap|residue, residue|gap, residue|residue), all-gap
+    # operands, and chains a + b + c
+    def _with_ends(s, lead, trail):
+        core = s.strip("-") or "A"
+        return "-" * lead + core + "-" * trail
+
+    for i in range(len(longs)):
+        (s, ma), (t, mb), (u, mc) = longs[i], longs[(i + 1) % len(longs)], longs[(i + 2) % len(longs)]
+        r = rng.random()
+        if r < 0.5:
+            # force the junctions
+            s = _with_ends(s, rng.choice([0, 2]), rng.choice([1, 1, 3]) if rng.random() < 0.7 else 0)
+            t = _with_ends(t, rng.choice([1, 1, 4]) if rng.random() < 0.7 else 0, rng.choice([0, 1, 2]))
+            if rng.random() < 0.3:
+                t = "-" * rng.randint(1, 4)
+            u = _with_ends(u, rng.choice([0, 1, 2]), rng.choice([0, 1]))
+            ma, mb, mc = (cogent3.make_seq(x, moltype="dna").parse_out_gaps()[0] for x in (s, t, u))
+        bump(out, "spec_add_junction_long", _junction(s, t))
+        out["evaluations"] += 1
+        _result_ok(out, lambda: ma + mb, s + t, "a + b is not the map of the concatenated string",
+                   "add:" + ("gap-meets-gap" if _junction(s, t) == "gap|gap" else "other"), dict(s=s, t=t))
+        _spec_add3(out, s, t, u, ma, mb, mc)
     # binary ops: all pairs of short layouts
     names = sorted(keep, key=lambda x: (len(x), x))
     for s in names:
         for t in names:
             if len(s) == len(t) and len(s) <= 5 or (len(s) <= 3 and len(t) <= 3):
                 _spec_binary(out, s, t, keep[s], keep[t])
+    # chains a + b + c over every triple of layouts of length <= 2
+    tiny = [x for x in names if len(x) <= 2]
+    for s in tiny:
+        for t in tiny:
+            for u in tiny:
+                _spec_add3(out, s, t, u, keep[s], keep[t], keep[u])
     # joined_segments exhaustively on short layouts
     for s in names:
         n = len(s)
@@ -1302,9 +1454,16 @@ def _replay_into(out, inp):
     import cogent3
 
     s = inp.get("s")
-    if s is None or "spans" in inp:
+    if "spans" in inp:
+        ix = inp.get("index")
+        _check_fmap(out, inp["spans"], inp["pl"], [ix] if ix else [])
         return
-    if "t" in inp:
+    if s is None:
+        return
+    if "u" in inp:
+        ma, mb, mc = (cogent3.make_seq(x, moltype="dna").parse_out_gaps()[0] for x in (s, inp["t"], inp["u"]))
+        _spec_add3(out, s, inp["t"], inp["u"], ma, mb, mc)
+    elif "t" in inp:
         ma = cogent3.make_seq(s, moltype="dna").parse_out_gaps()[0]
         mb = cogent3.make_seq(inp["t"], moltype="dna").parse_out_gaps()[0]
         _spec_binary(out, s, inp["t"], ma, mb)
@@ -1337,9 +1496,6 @@ def replay(ctx, data):
     inp, sig = f.get("input"), f.get("sig", "")
     if not inp:
         return False
-    if "spans" in inp:
-        print("feature-map case: re-run ./check C08 (random stream is seeded)", inp)
-        return True
     r = _replay_case(inp, sig)
     if r:
         print("expected", r["expected"], "got", r["got"])
